@@ -74,17 +74,17 @@ def check(ck: Checker) -> None:
     # ---------------------------------------------------------------- nometa
     dg = prog.func("hashfile.tree", "Tree.digest")
     gd = ck.cfg(dg)
-    from .tree_common import digest_model
+    from .tree_common import digest_model, is_metafree_as_bytes
 
     dm = digest_model(ck)
     ck.floor("C03.nometa", len(dm.hcalls), 1, "hash_file calls in Tree.digest")
     hn, hc = dm.hn, dm.hc
     hp = norm(dm.path) if dm.path is not None else None
     hashed = [(n, a1) for n, _c, a0, a1 in dm.pipes if norm(a0) == hp]
-    ck.require(bool(hashed) and all(norm(a1) == "self.as_bytes()" for _n, a1 in hashed), "C03.nometa", dg, hn, "hashed bytes are the metadata-free listing",
+    ck.require(bool(hashed) and all(is_metafree_as_bytes(ck, a1) for _n, a1 in hashed), "C03.nometa", dg, hn, "hashed bytes are the metadata-free listing",
                f"the listing that is hashed is {[norm(a1) for _n, a1 in hashed]}: the directory id would depend on file metadata", construct="digest / hashed bytes without meta")
     for n, _c, a0, a1 in dm.pipes:
-        if "with_meta" in norm(a1):
+        if not is_metafree_as_bytes(ck, a1):
             ck.require(norm(a0) != hp and avoiding_path(gd, n.id, lambda x: x.id == hn.id) is None, "C03.nometa", dg, n, "with-meta bytes go to a separate file written after hashing", "the with-meta bytes are written to (or before) the hashed file")
     ck.require(dm.algo is not None and norm(dm.algo) == "name" and dm.state is None, "C03.nometa", dg, hn, "digest hashes with the requested algorithm and no state cache", "digest() consults a state cache / another algorithm", construct="hash_file(path, memfs, name)")
 
